@@ -138,6 +138,7 @@ func runC10(c *Ctx) {
 	}
 
 	checkWithSnapshot(c)
+	checkApplyUnconditional(c)
 
 	// R10.3
 	nWriters := 0
@@ -730,4 +731,56 @@ func checkWithSnapshot(c *Ctx) {
 		}
 	}
 
+}
+
+// R10.6: what an operation does to the snapshot it does unconditionally.
+func checkApplyUnconditional(c *Ctx) {
+	w := c.W
+	c.Doc("R10.6", "in the Apply of create, add-comment, set-title and set-status, and in CommentTimelineItem.Append, every return is preceded on every path by the documented effects (the field stores, addActor, the timeline append / history step): no operation is skipped or half applied depending on its payload, its timestamp or the current snapshot")
+	storeTo := func(field string) func(ssa.Instruction) bool {
+		return func(i ssa.Instruction) bool {
+			st, ok := i.(*ssa.Store)
+			if !ok {
+				return false
+			}
+			fa, ok := st.Addr.(*ssa.FieldAddr)
+			return ok && fieldName(fa) == field
+		}
+	}
+	callTo := func(suffix string) func(ssa.Instruction) bool {
+		return func(i ssa.Instruction) bool {
+			ci, ok := i.(ssa.CallInstruction)
+			if !ok {
+				return false
+			}
+			n, _ := callName(ci.Common())
+			return strings.HasSuffix(n, suffix)
+		}
+	}
+	type req struct {
+		what string
+		pred func(ssa.Instruction) bool
+	}
+	targets := []struct {
+		typ, method string
+		reqs        []req
+	}{
+		{"SetTitleOperation", "Apply", []req{{"the title is set", storeTo("Title")}, {"the author becomes an actor", callTo("Snapshot.addActor")}, {"a timeline item is added", storeTo("Timeline")}}},
+		{"SetStatusOperation", "Apply", []req{{"the status is set", storeTo("Status")}, {"the author becomes an actor", callTo("Snapshot.addActor")}, {"a timeline item is added", storeTo("Timeline")}}},
+		{"AddCommentOperation", "Apply", []req{{"the comment is added", storeTo("Comments")}, {"the author becomes an actor", callTo("Snapshot.addActor")}, {"the author becomes a participant", callTo("Snapshot.addParticipant")}, {"a timeline item is added", storeTo("Timeline")}}},
+		{"CommentTimelineItem", "Append", []req{{"the message is replaced", storeTo("Message")}, {"the files are replaced", storeTo("Files")}, {"the last-edit time is replaced", storeTo("LastEdit")}, {"a history step is added", storeTo("History")}}},
+	}
+	for _, t := range targets {
+		fn := w.Method("entities/bug", t.typ, t.method)
+		if fn == nil {
+			c.Undecided("R10.6", "anchor:"+t.typ+"."+t.method, "entities/bug", "not found")
+			continue
+		}
+		c.seeFn(funcName(fn))
+		for _, r := range t.reqs {
+			c.Sites++
+			bad, p, _ := pathAvoiding(fn, nil, isAnyReturn, r.pred)
+			c.Check(!bad, "R10.6", t.typ+"."+t.method+":"+strings.ReplaceAll(r.what, " ", "-"), w.FnPos(fn), r.what+" on every path", "a return is reachable on which it is not the case that "+r.what+" ("+blocksString(w, p)+"): the operation is skipped or half applied for some inputs, the compiled state no longer follows the operation order")
+		}
+	}
 }
